@@ -115,7 +115,7 @@ var vSymCells int
 // vCellText: 0..2 symbolic bytes over the alphabet that matters for pipe tables.
 func vCellText() string {
 	if vSymCells <= 0 {
-		return "x|y"
+		return "é|y" // a non-ASCII character and a pipe
 	}
 	vSymCells--
 	n := vAnyIntIn(0, 2)
@@ -140,7 +140,7 @@ func vNormCell(s string) string {
 // H_C15_html_table_markdown: a GFM reader reads the pipe table back as the same rows x columns of cell texts.
 //
 //symgo:harness prop=C15 kernel=K1-html-table
-//symgo:desc shapes 1..2 x 1..2 (enumerated); up to 2 quick / 4 thorough cells hold 0..2 symbolic bytes over {pipe, newline, space, a, -}, the others the concrete text "x|y" (backslash excluded: GFM cannot represent a literal backslash before a pipe); oracle: a reference GFM pipe-table reader in the harness (header row, delimiter row of equal cell count, \\| unescaping, cell trimming)
+//symgo:desc shapes 1..2 x 1..2 (enumerated); up to 2 quick / 4 thorough cells hold 0..2 symbolic bytes over {pipe, newline, space, a, -}, the others the concrete text "é|y" (a non-ASCII character next to a pipe) (backslash excluded: GFM cannot represent a literal backslash before a pipe); oracle: a reference GFM pipe-table reader in the harness (header row, delimiter row of equal cell count, \\| unescaping, cell trimming)
 func H_C15_html_table_markdown() {
 	vSymCells = 2 + 2*vTier()
 	rows, cols := vAnyIntIn(1, 2), vAnyIntIn(1, 2)
